@@ -225,13 +225,18 @@ func (p *cparser) expr() *CE {
 			body := p.expr()
 			return &CE{Kind: kind, Vars: vars, Args: []*CE{lo, hi, body}}
 		}
+		star := ""
+		if p.isOp("*") {
+			p.i++
+			star = "*"
+		}
 		t := p.next()
 		if t.k != "id" {
 			p.fail("expected type or 'in' after bound variables")
 		}
 		p.expectOp(":")
 		body := p.expr()
-		return &CE{Kind: kind, Vars: vars, Typ: t.s, Args: []*CE{body}}
+		return &CE{Kind: kind, Vars: vars, Typ: star + t.s, Args: []*CE{body}}
 	}
 	return p.ternary()
 }
